@@ -245,7 +245,7 @@ def generate(rng, prefix="", n_funcs=None, with_main=True, rich=True):
              "flag", "printv", "len", "guard", "eprint"]
     if not words:
         kinds.remove("word")
-    kinds += ["sizeof", "sizeof", "sizeof", "noop", "noop", "sizedptr", "grid", "shared_text", "wide"]
+    kinds += ["sizeof", "sizeof", "sizeof", "noop", "noop", "noop", "noop", "sizedptr", "grid", "shared_text", "wide"]
     if warrays:
         kinds.append("wordarr")
     if opaque:
@@ -838,7 +838,7 @@ def perturb(split, rng, other=None):
         if pairs:
             split.dup_imports.add(rng.choice(pairs))
             applied.append("duplicate_import")
-    if rng.random() < 0.2:
+    if rng.random() < 0.4:
         # a private constant that has the name of a function of its own module or
         # of an imported one (constants and functions live in separate name spaces)
         cands = []
@@ -855,7 +855,8 @@ def perturb(split, rng, other=None):
                     cands.append((m, it.name, fns))
         if cands:
             m, c, fns = rng.choice(cands)
-            split.renames.setdefault(m, {})[c] = rng.choice(fns)
+            imported = [f for f in fns if split.assign[f] != m]
+            split.renames.setdefault(m, {})[c] = rng.choice(imported if imported and rng.random() < 0.6 else fns)
             applied.append("const_named_like_fn")
     return applied
 
